@@ -23,6 +23,13 @@ impl SourceFileMap {
         self.file_line_ranges.push(SourceLineRanges::default());
     }
 
+    /// Registers a file line that has a BASIC line number but doesn't define
+    /// that BASIC line (it's empty or can't be tokenized), so the BASIC line
+    /// keeps pointing at the file line that does define it, if any.
+    pub(crate) fn add_unmapped(&mut self, ranges: SourceLineRanges) {
+        self.file_line_ranges.push(ranges);
+    }
+
     pub(crate) fn add(&mut self, basic_line: u64, ranges: SourceLineRanges) {
         let file_line_number = self.file_line_ranges.len();
         self.basic_lines_to_file_lines
